@@ -236,6 +236,9 @@ def poison_sites(K):
     for platform, table in K["images"].items():
         for name, path in table.items():
             sites.append({"kind": "image", "platform": platform, "name": name, "bad": "/" + path, "good": path})
+            for b in (5, None, ["boot.iso"]):
+                # a path that is not text at all (what the validator makes of it is its business; the good copy is not)
+                sites.append({"kind": "image", "platform": platform, "name": name, "bad": b, "good": path})
     for platform in sorted(K["images"]):
         for badname in (1, 1.5, None, True):
             # an image NAME that is not text, next to the ordinary ones
